@@ -3,6 +3,7 @@ package primsim
 import (
 	"fmt"
 	"os"
+	"sort"
 	"testing"
 	"time"
 
@@ -146,6 +147,7 @@ func (c08) Exec(t *testing.T, c *Case, replay []int) *Outcome {
 			more           bool
 			inv, ret       int64
 			at             time.Duration
+			delivered      bool
 		}
 		type done struct {
 			inv, ret int64
@@ -239,6 +241,7 @@ func (c08) Exec(t *testing.T, c *Case, replay []int) *Outcome {
 							}
 							continue
 						}
+						x.delivered = true
 						hist.Byte(byte(0x10 | d))
 						got := res.ToView()
 						// the latest delivery of this key that wholly precedes this call
@@ -285,7 +288,47 @@ func (c08) Exec(t *testing.T, c *Case, replay []int) *Outcome {
 			// must-deliver, judged per phase: every fragment of a complete
 			// set was handed in during this phase (no time passes inside a
 			// phase), memory limits cannot have evicted anything
-			if injectedBytes <= high {
+			// an upper bound of what the reassembler holds at any moment: a fragment counts from the moment it is
+			// handed in; a delivery takes off, when it returns, the fragments of its key that were handed in wholly
+			// before the delivering call began (and the delivering fragment). While that bound stays within the high
+			// limit nothing may be evicted, however many bytes went through in total.
+			peak := func() int {
+				type ev struct {
+					at int64
+					d  int
+				}
+				var evs []ev
+				gone := map[*inj]bool{}
+				for _, x := range injs {
+					evs = append(evs, ev{x.inv, x.last - x.first + 1})
+				}
+				for _, x := range injs {
+					if !x.delivered {
+						continue
+					}
+					sub := 0
+					for _, y := range injs {
+						if y.d == x.d && !gone[y] && (y == x || y.ret != 0 && y.ret < x.inv) {
+							gone[y] = true
+							sub += y.last - y.first + 1
+						}
+					}
+					evs = append(evs, ev{x.ret, -sub})
+				}
+				sort.Slice(evs, func(i, j int) bool { return evs[i].at < evs[j].at || evs[i].at == evs[j].at && evs[i].d > evs[j].d })
+				cur, max := 0, 0
+				for _, e := range evs {
+					cur += e.d
+					if cur > max {
+						max = cur
+					}
+				}
+				return max
+			}()
+			if injectedBytes > high && peak <= high {
+				o.Probes["more_bytes_than_the_limit_went_through_without_pressure"]++
+			}
+			if peak <= high {
 				now := s.Stamp()
 				at := time.Since(start)
 				for d := 0; d < nd; d++ {
